@@ -810,6 +810,9 @@ def conc_ops(rng, tier):
     ops = {
         "w11m": {"op": "write", "key": k1, "data": d1, "algo": "sha256", "how": "streamed", "meta": bigmeta},
         "w11M": {"op": "write", "key": k1, "data": d1, "algo": "sha256", "how": "streamed", "meta": hugemeta},
+        # (above the 2 MiB per-operation ceiling of tokio's File)
+        "w11H": {"op": "write", "key": k1, "data": d1, "algo": "sha256", "how": "streamed",
+                 "meta": {"big": "M" * (2 * 1024 * 1024 + 5000)}},
         "w3L": {"op": "write", "key": k3, "data": d1, "algo": "sha256", "how": "oneshot"},
         "x3L": {"op": "remove", "key": k3},
         "w11": {"op": "write", "key": k1, "data": d1, "algo": "sha256", "how": "oneshot"},
@@ -847,13 +850,21 @@ def conc_scenarios(rng, tier, lanes=("S", "Aa", "Ta")):
         must = [("w11", "w12"), ("w12", "w12s"), ("w11", "w21"), ("w11", "wh1"), ("w12", "x1"), ("w12", "r1"),
                 ("w12", "m1"), ("w12", "ls"), ("x1", "r1"), ("xh1", "r1"), ("xh1", "w11"), ("w11", "w11"),
                 ("x1", "x1"), ("x1", "ls"), ("rh1", "xh1"), ("e1", "w11"), ("w12s", "ls"), ("w12s", "r1"),
-                ("w11m", "w12"), ("w11M", "x1"), ("w11M", "w12"), ("w3L", "w3L"), ("w3L", "x3L")]
-        extra = rng.sample([p for p in pairs if p not in must], 8)
+                ("w11m", "w12"), ("w11M", "x1"), ("w11M", "w12"), ("w3L", "w3L"), ("w3L", "x3L"), ("w11H", "x1")]
+        extra = rng.sample([p for p in pairs if p not in must and "w11H" not in p], 8)
         pairs = must + extra
+    else:
+        pairs = [p for p in pairs if "w11H" not in p or p in (("w11H", "x1"), ("w11H", "w12"), ("w11H", "w11H"))]
     out = []
     for (a, b) in pairs:
-        for wname in (["cold", "warm", "long"] if not q else [rng.choice(["cold", "warm"]), rng.choice(["warm", "long"])]):
+        wnames = ["cold", "warm", "long"] if not q else [rng.choice(["cold", "warm"]), rng.choice(["warm", "long"])]
+        if "w11H" in (a, b):
+            # one run per lane of the long writer (each runtime has its own per-operation ceiling)
+            wnames = ["warm"] * len(lanes)
+        for wi, wname in enumerate(wnames):
             lane_a, lane_b = rng.choice(lanes), rng.choice(lanes)
+            if a == "w11H":
+                lane_a = lanes[wi % len(lanes)]
             sa = dict(ops[a], lane=lane_a)
             sb = dict(ops[b], lane=lane_b)
             out.append({"universe": {"keys": prog["keys"], "blobs": prog["blobs"]}, "warm": warm[wname],
